@@ -100,6 +100,10 @@ def run(ctx):
         for _ in range(3000 if big else 300):
             yield ("ck", {"d": rng.randbytes(rng.randrange(1, 600)).hex(), "flip": rng.randrange(255)})
         yield ("ck", {"d": rng.randbytes(65539).hex()})
+        # contents that look like framing themselves (sync characters, preambles of the other protocols, a whole frame as content)
+        for pre in (b"\xb5\x62", b"\xb5", b"\x62\xb5", b"$G", b"\xd3\x00", b"\xb5\x62\xb5\x62", b"\xb5\x62\x06\x01\x00\x00\x07\x1b"):
+            for n in (0, 1, 2, 4, 9):
+                yield ("ck", {"d": (pre + rng.randbytes(n)).hex(), "flip": n})
         # time of week: every second of a week would be 604800 cases; every 7th (quick: 61st) second + random ms, all leap-offset wraps
         step = 7 if big else 61
         for s in itertools.chain(range(0, 604800, step), range(0, 40), range(604760, 604800)):
@@ -135,6 +139,11 @@ def run(ctx):
                     yield ("att", {"base": base, "i": i, "j": j, "name": name})
         for N in itertools.chain(range(-300, 301), (rng.randrange(-(1 << 30), 1 << 30) for _ in range(20000 if big else 3000))):
             yield ("sphp", {"N": N})
+        # values with more decimals than the high-precision unit (tenths of a unit; residuals that round up to a whole unit: the carry zone)
+        for M in itertools.chain(range(-2100, 2101), (s * (b * 1000 + r) for s in (1, -1) for b in (1, 7, 481234, 999999, 214748) for r in range(985, 1000)),
+                                 (rng.randrange(-(1 << 30), 1 << 30) for _ in range(20000 if big else 3000))):
+            if M % 10 != 5 and abs(M) < (1 << 30):  # (TLC integers are 32 bit)
+                yield ("sphp2", {"M": M})
 
 
     def gen_ext():
